@@ -379,6 +379,18 @@ let texts (p : program) (out : string) : string list =
         let nlines = List.length (String.split_on_char '\n' (s_of x.xvalue)) in
         if List.length !acc <> nlines && !fails = [] then fail (Printf.sprintf "text %s: %d directive lines for %d source lines" name (List.length !acc) nlines)
     | l -> fail (Printf.sprintf "text label %s is defined %d times" name (List.length l))) p.texts;
+  (* identical content of the same type shares one label: no two hoisted blocks are equal *)
+  let blocks = Hashtbl.create 16 in
+  let is_gen x = let rec has s sub i = i + String.length sub <= String.length s && (String.sub s i (String.length sub) = sub || has s sub (i + 1)) in has x "_Text_" 0 || has x "_Movement_" 0 in
+  Array.iteri (fun i l -> match l with
+    | LLabel (x, false) when is_gen x && not (List.mem_assoc x (info_of p).top_scopes) ->
+        let acc = ref [] and j = ref (i + 1) in
+        (try while !j < n do (match ls.(!j) with LTab (_, _, whole) -> acc := whole :: !acc | LMarker _ -> () | _ -> raise Exit); incr j done with Exit -> ());
+        let key = String.concat "\n" (List.rev !acc) in
+        (match Hashtbl.find_opt blocks key with
+         | Some y when !acc <> [] -> fail (Printf.sprintf "hoisted labels %s and %s have identical content: identical content must share one label" y x)
+         | _ -> Hashtbl.replace blocks key x)
+    | _ -> ()) ls;
   List.rev !fails
 
 (* ---------- C10: no command line with an empty argument ---------- *)
